@@ -44,11 +44,18 @@ FuncsVerdict(e) ==
   IN (IF exp # obs THEN {[c |-> "funcs", names |-> SymDiffNames(exp, obs)]} ELSE {})
      \cup (IF ~UniquePerName(Impls, e.day) THEN {[c |-> "overlap", names |-> {}]} ELSE {})
 
+\* registration histories of one column name: [k = "register", attempts = <<[s, e, ok]>>]
+RegOverlaps(a, b) == a.s <= b.e /\ b.s <= a.e
+RegisterVerdict(e) ==
+  LET h == e.attempts
+      exp(k) == \A j \in 1..(k - 1) : h[j].ok => ~RegOverlaps(h[j], h[k]) IN
+  IF \E k \in 1..Len(h) : h[k].ok # exp(k) THEN {[c |-> "register", names |-> {}]} ELSE {}
+
 Init == l = 1 /\ bad = {} /\ stats = [env |-> 0, funcs |-> 0, interior |-> 0]
 Step ==
   /\ l <= Len(Trace)
   /\ LET e == Trace[l]
-         v == IF e.k = "env" THEN EnvVerdict(e) ELSE FuncsVerdict(e) IN
+         v == IF e.k = "env" THEN EnvVerdict(e) ELSE IF e.k = "register" THEN RegisterVerdict(e) ELSE FuncsVerdict(e) IN
      /\ bad' = bad \cup {[e |-> l, c |-> x.c, names |-> x.names] : x \in v}
      /\ stats' = [env |-> stats.env + (IF e.k = "env" THEN 1 ELSE 0),
                   funcs |-> stats.funcs + (IF e.k = "funcs" THEN 1 ELSE 0),
